@@ -12,7 +12,8 @@ for pid, spec in registry.PROPS.items():
     for t in spec.get('translators', []):
         mod = __import__('translators.' + t, fromlist=['run'])
         mod.run(check.SRC, os.path.join(check.LEAN, 'N2k', 'Gen'))
-import gen_driver_main
+import gen_driver_main, gen_spec
+gen_spec.run()
 gen_driver_main.run()
 r = subprocess.run(['lake', 'build'] + mods + ['n2kdrv'], cwd=os.path.join(VERIF, 'lean'))
 sys.exit(r.returncode)
